@@ -1007,8 +1007,9 @@ FS_KW = ['xx-small', 'x-small', 'small', 'medium', 'large', 'x-large', 'xx-large
 
 
 def env_lit(c):
-    return '{| own_fs := %s; root_fs := %s; ex_ratio := %s; ch_ratio := %s |}' % (
-        qlit(c.get('own_fs') or 0), qlit(c.get('root_fs', 16)), qlit(c.get('exr', '1/2')), qlit(c.get('chr', '1/2')))
+    return '{| own_fs := %s; root_fs := %s; ex_ratio := %s; ch_ratio := %s; is_root := %s |}' % (
+        qlit(c.get('own_fs') or 0), qlit(c.get('root_fs', 16)), qlit(c.get('exr', '1/2')), qlit(c.get('chr', '1/2')),
+        blit(c['is_root'] if 'is_root' in c else c.get('parent_fs') is None and c.get('parent_fw') is None))
 
 
 def oq(x):
@@ -1046,6 +1047,7 @@ def gen_direct(rng, thorough):
         r = rng.random()
         if r < 0.4:
             c = dict(base, fs=rng.choice([None, None, rq(rng)]), pixels_only=rng.random() < 0.5,
+                     is_root=rng.random() < 0.4, name=rng.choice(['margin_left', 'margin_left', 'font_size']),
                      value=rng.choice(['auto', 'content', 'from-font']) if rng.random() < 0.08 else
                      [rq(rng, -8, 40), rng.choice(units)])
             cases.append(('length', c, None))
@@ -1060,7 +1062,7 @@ def gen_direct(rng, thorough):
             rr = rng.random()
             v = 'normal' if rr < 0.1 else [rq(rng, 0, 4), None] if rr < 0.4 else [rq(rng, 0, 300), '%'] if rr < 0.7 \
                 else [rq(rng, 0, 40), rng.choice([u for u in units if u != '%'])]
-            cases.append(('line_height', dict(base, value=v), None))
+            cases.append(('line_height', dict(base, value=v, is_root=rng.random() < 0.4), None))
     # larger / smaller around every table boundary
     for b in [Fraction(48, 5), 12, Fraction(128, 9), 16, Fraction(96, 5), 24, 32]:
         for dlt in [Fraction(-1, 100), 0, Fraction(1, 100)]:
@@ -1089,7 +1091,8 @@ def coq_direct(fn, c, st, o):
         return '(DMedia [%s] %s %s)' % ('; '.join(slit(x) for x in c[0]), slit(c[1]), blit(o))
     if fn == 'length':
         out = None if o == 'same' else Fraction(o)
-        return '(DLen %s %s %s %s)' % (env_lit(c), oq(c.get('fs')), lval_lit(c['value']), oq(out))
+        return '(DLen %s %s %s %s %s)' % (env_lit(c), blit(c.get('name') == 'font_size'), oq(c.get('fs')),
+                                          lval_lit(c['value']), oq(out))
     if fn == 'font_size':
         v = c['value']
         if v in FS_KW:
@@ -1309,7 +1312,8 @@ def judge_values(nodes, obs):
         # the root element's computed font size is the reference of rem everywhere but in its own font-size
         rfs_font = Fraction(16) if is_root else Fraction(root['fs'])
         rfs_len = Fraction(o['fs']) if is_root else Fraction(root['fs'])
-        env = dict(own_fs=str(Fraction(o['fs'])), root_fs=str(rfs_font if is_root else Fraction(root['fs'])))
+        env = dict(own_fs=str(Fraction(o['fs'])), root_fs=str(rfs_font if is_root else Fraction(root['fs'])),
+                   is_root=is_root)
         # ---- font-size
         v = st.get('font-size')
         exp = None
